@@ -5,11 +5,46 @@ ROOT = os.path.dirname(os.path.dirname(os.path.abspath(__file__)))
 
 # id -> (built, engine, technique, level text, level note, design ref)
 P = {
+ "C10": (True, "rtprops",
+         "stateful PBT (proptest op histories over a handle pool vs a multiset model); threaded variant checked at quiescence",
+         "Generated histories over {from value/Arc/Option<Arc>, clone, take, transpose, into_opaque, into_arc, deref, drop} on pools of CArc/CArcSome/opaque/Arc handles; after every step Weak::strong_count equals the number of live handles, the payload token is dropped exactly when the last handle goes, addresses/values agree and clone/drop function pointers equal those of the originating handle. 2-8 threads run generated sub-histories with handles re-dealt at barriers. Exploration only; interleavings are sampled, not owned.",
+         "std Weak::strong_count as observer; repr(C) field view {instance, clone_fn, drop_fn}; OS scheduler picks interleavings",
+         "DESIGN.md 4/C10"),
  "C11": (True, "rtprops",
          "model-based PBT (proptest histories vs Vec model) + exhaustive short histories, tracking allocator and drop tokens",
          "Generated operation histories (exhaustive up to a length bound over an 11-op alphabet, random up to 400 ops) are applied to a CVec and to a Vec; contents, len, capacity, panics, per-element drop counts, allocator balance/layout and the use of the stored reserve/drop functions are compared after every step. Exploration: finds counter-examples, never proves absence.",
          "Vec<T> as reference model; repr(C) field view of CVec as published; tracking allocator in the harness",
          "DESIGN.md 4/C11"),
+ "C12": (True, "rtprops",
+         "round-trip PBT + exhaustive enumeration of short byte strings against a hand-written RFC 3629 validator",
+         "Slices of four element types at every length 0..=64 and random larger ones are round-tripped through every CSliceRef/CSliceMut conversion (address, length, contents, writes landing in the original buffer); the &str decision is compared with an independent UTF-8 validator on ALL byte strings up to length 2 (quick) / 3 (thorough) and on a boundary alphabet up to length 4/5, plus random damaged text; COption/CResult/CTup conversions are checked for variant, payload identity and exactly-once drops.",
+         "hand-written RFC 3629 validator (cross-checked against std on every input; disagreement aborts as inconclusive)",
+         "DESIGN.md 4/C12"),
+ "C13": (True, "rtprops",
+         "PBT over the product of result shapes with poisoned output slots and drop tokens; sweep of i32 OS codes",
+         "Library half: every combination of payload {(), u64, droppable} x error {io raw code, io non-OS, (), fmt::Error, user IntError} x Ok/Err x both APIs with edge codes, then random; 300k (quick) / 5M (thorough) distinct OS codes through encode->decode. Oracle: 0 iff Ok, slot written exactly on Ok (token identity), byte-identical poison on Err, no read of the slot when decoding a failure, no shipped error encodes to 0, non-zero OS codes survive. The generated-code half (int_result trait methods end to end) is part of the program-batch engine.",
+         "output slot poison pattern 0xA7; token registry",
+         "DESIGN.md 4/C13"),
+ "C14": (True, "rtprops",
+         "PBT over valid-UTF-8 inputs with NULs in every position; allocator-level oracle (block size, balance, layout)",
+         "Texts built from whole scalars (NUL, ASCII, 2/3/4-byte) as &str, String and &[u8] placed at the end of an exact-size heap block; short ones enumerated. The value must point at its own heap block of size prefix+1 containing prefix+NUL; as_ref/Deref/Display/Debug/Hash/Eq/Clone/Borrow agree with the prefix; the allocation window is balanced with matching layouts.",
+         "tracking allocator with red zones is the observer of buffer size, leaks and wrong-size frees",
+         "DESIGN.md 4/C14"),
+ "C15": (True, "rtprops",
+         "PBT + full product for small sizes; model of the offered prefix, drop tokens",
+         "Item sequences x stop positions x four sink kinds x six feeding routes (full product for small n, random beyond) and iterator wrappers over scripted (unfused) and Vec sources with wrapper use interleaved with direct source use, compared call by call with an identical model source; every item token dropped exactly once.",
+         "model = prefix up to and including the first false / an identical second source",
+         "DESIGN.md 4/C15"),
+ "C16": (True, "rtprops",
+         "differential PBT: values driven only through independently declared C-view structs vs the Rust API",
+         "Each carrier (CBox, CSliceBox, CArc/CArcSome, CSliceRef/Mut, CVec, OpaqueCallback, CIterator, COption, CResult) x six element types x sizes is bit-copied into a view struct declared from the published layout and released/cloned/read/grown/invoked/advanced only through its fields and function pointers; values assembled from C fields are handed back to Rust. Effects are compared with the Rust-side model (contents, counts, drops, allocator).",
+         "the view structs are the statement of the published layout (taken from the property text and examples/pregen-headers/bindings.h)",
+         "DESIGN.md 4/C16"),
+ "C19": (True, "rtprops",
+         "stateful PBT over waker histories with a counting RawWakerVTable as the caller's waker",
+         "Histories over {clone, wake, wake_by_ref, drop} on the tree of wakers obtained inside polls of opaque Future/Stream/Sink objects, during the poll, after it returned, and on another thread, with a generated final drop order. After every op: wakes seen == wakes issued, releases <= clones, a clone is held while any foreign waker lives, and at the end clones == releases with nothing touching the original afterwards.",
+         "hand-rolled RawWakerVTable over counters (no UB on over-release); threaded phases checked at quiescence",
+         "DESIGN.md 4/C19"),
 }
 NOT_YET = "check not built yet in this round (see DESIGN.md section 4 for the planned generator and oracle)"
 
@@ -53,7 +88,7 @@ def main():
 NA = {}
 ENGINES = [
  {"name": "verifkit", "path": "harness/verifkit", "serves_properties": [], "kind_free_text": "tracking global allocator, drop tokens, proptest runner with fixed seeds, statistics, replay protocol"},
- {"name": "rtprops", "path": "harness/rtprops", "serves_properties": ["C11"], "kind_free_text": "proptest histories against std models for the runtime types"},
+ {"name": "rtprops", "path": "harness/rtprops", "serves_properties": ["C10","C11","C12","C13","C14","C15","C16","C19"], "kind_free_text": "proptest histories against std models for the runtime types"},
  {"name": "check", "path": "check", "serves_properties": [], "kind_free_text": "python driver: build, run, known-findings protocol, evidence"},
 ]
 if __name__ == "__main__":
